@@ -33,7 +33,7 @@ def one(patch, slot):
 
 
 if __name__ == "__main__":
-    ps = sys.argv[1:]
+    ps = [os.path.abspath(p) for p in sys.argv[1:]]
     with cf.ThreadPoolExecutor(max_workers=12) as ex:
         futs = [ex.submit(one, p, "-mut%d" % (i % 12)) for i, p in enumerate(ps)]
         for f in futs:
